@@ -361,7 +361,7 @@ def scaling(ctx) -> None:
             if base != ("attr", SELF, "factors") or c != ("attr", SELF, "orthogonality_center"):
                 bad.append(f"result claims centre {show(c)[:40]} over factors scaled from {show(base)[:40] if base else '?'}")
                 continue
-            none_here = any(_is_none_test(cc, c) is not None and _is_none_test(cc, c) == (not t) for cc, t in p.cond_log[: sc[-1].ncond])
+            none_here = any(_is_none_test(cc, c) is not None and _is_none_test(cc, c) == bool(t) for cc, t in p.cond_log[: sc[-1].ncond])
             good = w == c or none_here or (w[0] == "ifexp" and _is_none_test(strip_typed(w[1]), c) is False and strip_typed(w[2]) == c) \
                 or (w[0] == "ifexp" and _is_none_test(strip_typed(w[1]), c) is True and strip_typed(w[3]) == c)
             if not good:
